@@ -56,8 +56,8 @@ def gen(seed: int, tier: str) -> dict[str, Any]:
     n = rng.choice([2, 5, 10, 20])
     for i in range(n):
         k = rng.choices(["wrapped", "wrapped_forged", "wrapped_wrong_key", "notify", "notify_forged", "plain", "send",
-                         "wrapped_bad_inner"],
-                        [6, 2, 1, 3, 2, 3, 4, 2])[0]
+                         "wrapped_bad_inner", "wrapped_short_forged"],
+                        [6, 2, 1, 3, 2, 3, 4, 2, 1])[0]
         op: dict[str, Any] = {"t": round(rng.uniform(4.0, 4.0 + horizon), 6), "op": k, "id": i + 1}
         if k == "wrapped_bad_inner":
             # authentic and timely, but what is inside is not a well-formed frame (a peer with the key and a bug)
@@ -66,6 +66,10 @@ def gen(seed: int, tier: str) -> dict[str, Any]:
                                       "ind_bad_cemi", "empty"])
         if k in ("wrapped", "wrapped_forged", "wrapped_wrong_key", "notify", "notify_forged"):
             op["off"] = rng.choice(OFFS) if k != "notify_forged" else rng.choice([10 ** 6, 10 ** 9, 5000])
+        if k == "wrapped_short_forged":
+            # made without the key: timer value far ahead, 0-9 octets where the encrypted frame belongs, random MAC
+            op["off"] = rng.choice([10 ** 6, 10 ** 9, 2 ** 40, 5000])
+            op["n"] = rng.choice([0, 1, 2, 5, 7, 8, 9])
         if k == "wrapped_forged":
             op["flip"] = rng.randrange(6 * 8, 55 * 8)
         if k == "plain":
@@ -317,6 +321,13 @@ def run(plan: dict[str, Any]) -> dict[str, Any]:
                     pass
                 if k != "wrapped":
                     R.extra_faults[k] += 1
+                peers[0].sendto(fr, MCAST, lat=lat, nofault=True)
+            elif k == "wrapped_short_forged":
+                value = max(1, local_guess + op["off"])
+                values[pid] = value
+                fr = W.frame(W.SECURE_WRAPPER, b"\x00\x00" + value.to_bytes(6, "big") + b"\x00\xfa\x12\x34\x56\x78"
+                             + rng.randbytes(2) + rng.randbytes(op["n"]) + rng.randbytes(16))
+                R.extra_faults[k] += 1
                 peers[0].sendto(fr, MCAST, lat=lat, nofault=True)
             elif k in ("notify", "notify_forged"):
                 value = max(1, local_guess + op["off"])
